@@ -614,7 +614,7 @@ func (s *sess) deliver(e *lp.Exec, fl uint32, hold bool) string {
 	if hold {
 		s.holdNext = true
 		s.injDone = make(chan bool, 1)
-		go func() { s.injDone <- vsys.InjectTimeout(s.epfd, evs, 10*time.Second) }()
+		go func() { s.injDone <- vsys.InjectTimeout(s.epfd, evs, 60*time.Second) }()
 		select {
 		case <-s.pollerHeld:
 			s.held = true
@@ -625,7 +625,7 @@ func (s *sess) deliver(e *lp.Exec, fl uint32, hold bool) string {
 				s.stuck(e, "poller did not finish the event batch")
 			}
 		}
-	} else if !vsys.InjectTimeout(s.epfd, evs, 10*time.Second) {
+	} else if !vsys.InjectTimeout(s.epfd, evs, 60*time.Second) {
 		s.stuck(e, "poller did not finish the event batch")
 	}
 	s.runDef(e)
@@ -693,7 +693,7 @@ func (s *sess) stepTask(e *lp.Exec) string {
 			t.state = "dec"
 		}
 		return d
-	case <-time.After(10 * time.Second):
+	case <-time.After(60 * time.Second):
 		s.stuck(e, "parked read task did not reach a pause point")
 		return "stuck"
 	}
@@ -989,9 +989,10 @@ func exec(e *lp.Exec) {
 				key.WriteString("n,")
 				continue
 			}
-			if s.taskState() == "read" && (fl != evIn || s.mode != "et") {
+			if s.taskState() == "read" && (fl&evIn == 0 || fl&evOut != 0 || s.mode != "et") {
 				// the parked task sits inside its read, i.e. inside the conn mutex: a poller that needs the
-				// mutex (close, flush) would simply wait for it; such a report is not delivered now
+				// mutex (close on an error-only event, flush) would simply wait for it; such a report is not
+				// delivered now (an event with IN only goes through the gate, also with a hang-up flag)
 				s.state(e, "busy")
 				key.WriteString("b,")
 				continue
@@ -1449,7 +1450,7 @@ func realCase(e *lp.Exec, c cfg) {
 	if len(order) != 1 || string(all) != string(sent[:len(all)]) {
 		e.Oracle("c02-delivery", "%s: delivered bytes are not a prefix of the bytes sent (%d conns, %d bytes)", tag, len(order), len(all))
 	}
-	if len(all) != len(sent) && !c.isAsync() { // asynchronous configurations: known finding C02-async-halfclose
+	if len(all) != len(sent) {
 		e.Oracle("c02-stranded", "closed on peer half-close with %d unread in the kernel queue mode=%s async=%v typ=%s cap=%d rbs=%d (real kernel)", len(sent)-len(all), c.mode, c.isAsync(), c.typ, c.cap, c.rbs)
 	}
 }
